@@ -274,6 +274,9 @@ def _run_bodies(sh, rec):
         # velocities; rigid bodies get a new centre, director frame and velocities.  The grid is refreshed the way every
         # interaction does (position, then velocity); the force field is gaussian, i.e. non-uniform around the circumference.
         if j % 2 == 1:
+            if j % 4 == 1 and bodies.rebind_arrays(body):
+                # finalize()-like: array attributes of the body rebound to other array objects (same values) after grid construction
+                rec.count("bodies_with_arrays_rebound_like_finalize")
             if case.family == "rod":
                 r_before = np.array(body.radius)
                 bodies.stretch_rod(body, rng)
